@@ -123,12 +123,14 @@ package services
 
 // the model is synchronised, then HAProxy is updated, and the update's error is returned
 //@ func (*Services).ReconcileIngress
-//@   props C12
+//@   props C12 C17
 //@   ensures updated:   calls(HAUpdate) == 1 && calls(ConvSync) == 1
 //@   ensures propagate: (result == nil) == (last(HAUpdate) == nil)
 //@   ensures unlocked:  !held(s.modelMutex)
 //@   requires unlocked: !held(s.modelMutex)
 //@   at call HAProxyUpdate#1 assert synced: calls(ConvSync) == 1
+//@   ensures acme-once: calls(AcmeUpd) <= 1
+//@   at call AcmeUpdate#1 assert leader: calls(SvcLeader) == 1 && last(SvcLeader)
 //@ end
 
 // a failed reload re-adds itself to the reload queue
@@ -139,4 +141,26 @@ package services
 //@   ensures retry: last(HAReload) != nil ==> calls(ReloadRetry) == 1
 //@   ensures ok:    last(HAReload) == nil ==> calls(ReloadRetry) == 0
 //@   ensures unlocked: !held(s.modelMutex)
+//@ end
+
+// ---------------------------------------------------------------------------
+// C17 — only the leader enqueues acme work
+
+//@ count SvcLeader = (*svcLeader).isLeader
+//@ count AcmeQAdd  = (utils.QueueFacade).Add
+//@ count AcmeQAddAfter = (utils.QueueFacade).AddAfter
+//@ count AcmeUpd   = (haproxy.Instance).AcmeUpdate
+
+//@ func (*svcAcmeClient).Add
+//@   props C17
+//@   ensures asked:     calls(SvcLeader) == 1
+//@   ensures leader:    last(SvcLeader) ==> calls(AcmeQAdd) == 1
+//@   ensures nonleader: !last(SvcLeader) ==> calls(AcmeQAdd) == 0
+//@ end
+
+//@ func (*svcAcmeClient).AddAfter
+//@   props C17
+//@   ensures asked:     calls(SvcLeader) == 1
+//@   ensures leader:    last(SvcLeader) ==> calls(AcmeQAddAfter) == 1
+//@   ensures nonleader: !last(SvcLeader) ==> calls(AcmeQAddAfter) == 0
 //@ end
